@@ -54,7 +54,8 @@ CHECKS['C07'] = dict(
     level='model_checking', engine='AUT', design='6 C07',
     technique='explicit-state product exploration: language equality between the executed regexes of a constructed '
               'list presentation and the union/difference assembled from its single pieces',
-    text='All ordered lists of up to 2 (quick) / 3 (thorough) inclusions and 1 / 2 exclusions from dot-, slash-, '
+    text='All ordered lists of up to 2 inclusions and 1 exclusion (quick; thorough: up to 2 and 2, plus a seed-chosen eighth '
+         'of the lists with 3 inclusions and at most 1 exclusion) from dot-, slash-, '
          'bracket- and group-sensitive pools, in ten presentations (exclude=, inline !/-, orders, duplicates, SPLIT '
          'joins, NEGATEALL, brace templates x SPLIT x NEGATE), fnmatch and glob mode; equality decided on all names; '
          'translate() list lengths compared with the number of distinct pieces and translate()\'s regexes held to the same '
